@@ -62,25 +62,28 @@ GlobalDiff(it) ==
 (* merging (bbl_simplifier): a merged block is a chain of original blocks, each the only successor of the previous one; the only *)
 (* instructions that may disappear are the direct jumps linking them                                                            *)
 BlockAt(it, o) == CHOOSE b \in Blocks(it) : b.start = o
-RECURSIVE Match(_, _, _, _, _)
-Match(it, m, i, b, j) ==        \* m.ins from position i against block b from position j
-  IF j <= Len(b.ins)
-  THEN IF i <= Len(m.ins) /\ m.ins[i] = b.ins[j] THEN Match(it, m, i + 1, b, j + 1)
+RECURSIVE Match(_, _, _, _, _, _)
+Match(it, m, i, b, j, fuel) ==        \* m.ins from position i against block b from position j
+  IF fuel = 0 THEN "merged-block-does-not-follow-a-chain-of-blocks"
+  ELSE IF j <= Len(b.ins)
+  THEN IF i <= Len(m.ins) /\ m.ins[i] = b.ins[j] THEN Match(it, m, i + 1, b, j + 1, fuel)
        ELSE IF j = Len(b.ins) /\ i <= Len(m.ins) /\ D(it, b.ins[j]).bf /\ ~D(it, b.ins[j]).call
-               /\ Range(D(it, b.ins[j]).dsts) = {m.ins[i]} /\ m.ins[i] \in Starts(it)
-               /\ (D(it, b.ins[j]).sf => EndOf(it, b) = m.ins[i])
-            THEN Match(it, m, i, BlockAt(it, m.ins[i]), 1)                     \* the linking jump (all its flow goes to the next block) was dropped
+               /\ Cardinality(Range(D(it, b.ins[j]).dsts)) = 1 /\ Range(D(it, b.ins[j]).dsts) \subseteq Starts(it)
+               /\ (D(it, b.ins[j]).sf => Range(D(it, b.ins[j]).dsts) = {EndOf(it, b)})
+            (* the linking jump (all its flow goes to one next block) was dropped; the next block may itself be only such a jump *)
+            THEN Match(it, m, i, BlockAt(it, CHOOSE d \in Range(D(it, b.ins[j]).dsts) : TRUE), 1, fuel - 1)
             (* recorded deviation (known finding): the dropped branch had another destination that was never disassembled *)
             ELSE IF j = Len(b.ins) /\ D(it, b.ins[j]).bf /\ ~(Dsts(Range(b.bto)) \subseteq Starts(it))
             THEN "pending-destination-dropped-with-instruction-" \o ToString(b.ins[j])
             ELSE "instruction-" \o ToString(b.ins[j]) \o "-lost-or-reordered"
   ELSE IF i > Len(m.ins) THEN (IF Range(m.succ) = Range(b.succ) THEN "ok" ELSE "successors-of-the-merged-block")
-       ELSE IF Cardinality(Range(b.succ)) = 1 /\ m.ins[i] \in Range(b.succ) THEN Match(it, m, i, BlockAt(it, m.ins[i]), 1)
+       ELSE IF Cardinality(Range(b.succ)) = 1 /\ m.ins[i] \in Range(b.succ) THEN Match(it, m, i, BlockAt(it, m.ins[i]), 1, fuel - 1)
        ELSE "merged-over-a-block-with-several-successors"
+MatchFrom(it, m) == Match(it, m, 1, BlockAt(it, m.start), 1, Cardinality(Blocks(it)) + 1)
 MergeDiff(it) ==
-  IF \E m \in Range(it.merged) : ~m.bad /\ m.ins # <<>> /\ (m.start \notin Starts(it) \/ Match(it, m, 1, BlockAt(it, m.start), 1) # "ok")
-  THEN LET m == CHOOSE m \in Range(it.merged) : ~m.bad /\ m.ins # <<>> /\ (m.start \notin Starts(it) \/ Match(it, m, 1, BlockAt(it, m.start), 1) # "ok") IN
-       "merged-block-" \o ToString(m.start) \o ":" \o (IF m.start \in Starts(it) THEN Match(it, m, 1, BlockAt(it, m.start), 1) ELSE "unknown-start")
+  IF \E m \in Range(it.merged) : ~m.bad /\ m.ins # <<>> /\ (m.start \notin Starts(it) \/ MatchFrom(it, m) # "ok")
+  THEN LET m == CHOOSE m \in Range(it.merged) : ~m.bad /\ m.ins # <<>> /\ (m.start \notin Starts(it) \/ MatchFrom(it, m) # "ok") IN
+       "merged-block-" \o ToString(m.start) \o ":" \o (IF m.start \in Starts(it) THEN MatchFrom(it, m) ELSE "unknown-start")
   ELSE IF \E o \in AllIns(it) \ UNION {Range(m.ins) : m \in Range(it.merged)} : ~(D(it, o).bf /\ ~D(it, o).call /\ D(it, o).dsts # <<>>)
        THEN "instructions-missing-after-merging"
   ELSE "ok"
